@@ -62,6 +62,41 @@ def rec_above(sb, x, y):
     return None
 
 
+_CIS = None
+
+
+def cis_sign():
+    """the library's sign convention for 'the two named substituents are on the same side', calibrated once on a chain"""
+    global _CIS
+    if _CIS is None:
+        import chython
+        _CIS = chython.smiles('F/C=C\\F')._translate_cis_trans_sign(2, 3, 1, 4)
+    return _CIS
+
+
+def geometry(V, mol, ref, text):
+    """molecule level: every double bond whose two ends carry a marked substituent (chain bond or either digit of a ring
+    closure) has the configuration the independent reader derives - unless the bond is not stereogenic at all"""
+    try:
+        dbs = ref.double_bond_geometry()
+    except Exception:
+        return
+    sct = mol.stereogenic_cis_trans
+    chiral = mol.chiral_cis_trans if not any(b.stereo is not None for *_, b in mol.bonds()) else None
+    for u, v, a, b, same in dbs:
+        u, v, a, b = u + 1, v + 1, a + 1, b + 1
+        key = (u, v) if (u, v) in sct else (v, u)
+        if key not in sct or mol._bonds[u].get(v) is None or mol._bonds[u][v].order != 2:
+            continue         # cumulene / not stereogenic by constitution
+        if mol._bonds[u][v].stereo is None:
+            # acceptable only if the library finds the bond non-stereogenic (equal substituents)
+            V.prove(chiral is not None and key not in chiral and (key[1], key[0]) not in chiral,
+                    'a marked stereogenic double bond gets its label', {'text': text, 'bond': [u, v]})
+            continue
+        got = mol._translate_cis_trans_sign(u, v, a, b)
+        V.prove((got == cis_sign()) == same, 'double bond configuration is the written one', {'text': text, 'bond': [u, v]})
+
+
 def compare(V, rec, ref, text):
     info = {'text': text}
     V.prove(len(rec['atoms']) == len(ref.atoms), 'same number of atoms', info)
@@ -153,6 +188,8 @@ def h_string(V, n=None, first=None, falsify=False, template=None):
                 # (the public reader may still refuse a syntactically valid text on chemical grounds, e.g. an isotope
                 # the element does not have: that is a ValueError and within the statement)
                 V.prove(len(public) == len(ref.atoms), 'public reader builds as many atoms as the text has', {'text': text})
+                if isinstance(public, chython.MoleculeContainer) and len(public) == len(ref.atoms):
+                    geometry(V, public, ref, text)
     if rec is None and public is not None:
         V.prove(public is False, 'public reader rejects what the tokenizer/parser rejects', {'text': text})
     V.observe('text', text)
@@ -252,15 +289,45 @@ def h_cx(V):
     V.observe('case', k)
 
 
+def h_cx_radicals(V, maxn=2, falsify=False):
+    """CXSMILES radical list on a reaction: indices count atoms in the written order reactants, reagents, products"""
+    import chython
+    nr, ng, np_ = (int(V.int(k, 0, maxn)) for k in ('reactants', 'reagents', 'products'))
+    total = 2 * (nr + ng + np_)
+    if not total:
+        V.note('empty')
+        return
+    i = int(V.int('i', 0, total - 1))
+    j = int(V.int('j', 0, total - 1))
+    V.assume(i <= j)
+    listed = sorted({i, j})
+    text = '>'.join('.'.join(['CO'] * k) for k in (nr, ng, np_)) + ' |^1:' + ','.join(map(str, listed)) + '|'
+    r = chython.smiles(text)
+    got = [[[a.is_radical for _, a in m.atoms()] for m in role] for role in (r.reactants, r.reagents, r.products)]
+    flat = [x in listed for x in range(total)]
+    if falsify:
+        flat[0] = not flat[0]
+    want, pos = [], 0
+    for k in (nr, ng, np_):
+        want.append([flat[pos + 2 * q: pos + 2 * q + 2] for q in range(k)])
+        pos += 2 * k
+    V.prove(got == want, 'the radical list marks exactly the listed atoms, counted in the written order of the roles',
+            {'text': text, 'got': got, 'want': want})
+    V.observe('text', text)
+
+
 TEMPLATES = [
     ['C', '1', 'C', 'C', None], ['C', None, '1', 'C', 'C', '1'], ['C', '1', 'C', 'C', None, '1'],
     ['C', '%', None, None, 'C', 'C', '%', '1', '2'], ['C', '%', '1', '2', 'C', 'C', '%', None, None],
     ['C', '(', None, ')', 'C'], ['C', None, 'C', None, 'C'], ['[', None, 'H', ']'], ['[', 'C', None, ']'],
     ['F', '/', 'C', '=', 'C', None, 'F'], ['C', '.', None], ['C', None, '(', 'C', ')'], ['c', '1', 'c', None, 'c', '1'],
     ['C', '(', 'C', ')', None, 'C'], ['[', '1', '3', 'C', 'H', None, ']'],
+    # a direction mark on either digit of a ring closure next to a double bond, written at the double-bond atom or at its partner
+    ['F', '/', 'C', '=', 'C', None, '1', '.', 'N', '1'], ['F', '/', 'C', '=', 'C', '1', '.', 'N', None, '1'],
+    ['N', None, '1', '.', 'F', '/', 'C', '=', 'C', '1'], ['N', '1', '.', 'F', '/', 'C', '=', 'C', None, '1'],
 ]
 
-HARNESSES = {'string': h_string, 'bracket': h_bracket, 'reaction': h_reaction, 'cx': h_cx}
+HARNESSES = {'string': h_string, 'bracket': h_bracket, 'reaction': h_reaction, 'cx': h_cx, 'cx_radicals': h_cx_radicals}
 
 
 def finding_key(job, failure):
@@ -287,6 +354,8 @@ def jobs(tier):
     J.append({'harness': 'bracket', 'params': {'vary': ['chg'], 'falsify': True}, 'twin': True, 'budget_s': 120,
               'max_failures': 1, 'validate': False})
     J.append({'harness': 'reaction', 'params': {'maxn': 3 if T else 2}, 'budget_s': 600})
+    J.append({'harness': 'cx_radicals', 'params': {'maxn': 3 if T else 2}, 'budget_s': 900, 'validate_every': 100})
+    J.append({'harness': 'cx_radicals', 'params': {'maxn': 1, 'falsify': True}, 'twin': True, 'budget_s': 120, 'max_failures': 1})
     J.append({'harness': 'reaction', 'params': {'maxn': 1, 'falsify': True}, 'twin': True, 'budget_s': 120, 'max_failures': 1})
     J.append({'harness': 'cx', 'budget_s': 120})
     J.append({'harness': 'string', 'params': {'n': 1, 'first': ['C'], 'falsify': True}, 'twin': True, 'budget_s': 60,
